@@ -162,6 +162,24 @@ def run(prop: str, tier: str, extra=None) -> int:
         # long simulations (13 000 ticks, write-outs in progress most of the time) through the real priority policy, observed sparsely:
         # tick-count-dependent behaviour of the pools only shows in runs of this length
         traces += long_runs(4 if tier == "quick" else 48, common.seed() + SEED_OFFSET[prop])
+    if prop in ("C03", "C10"):
+        # whole simulations under the priority policy (suspensions; float RAM sizes; the simulator's own per-second memory report)
+        from . import driver_sched
+        sim = driver_sched.gen_traces(120 if tier == "quick" else 3000, common.seed() + 303 + int(prop[1:]), policies=["priority"],
+                                      flavours=(("preempt", 0.5), ("herd", 0.4), ("mixed", 0.1)))
+        for tr in sim:
+            for e in tr:
+                e["tid"] += 2 * 10**7
+        traces += sim
+    if prop == "C01":
+        # whole simulations with one operator per container: DAGs whose branches run side by side, and a merge of hundreds of operators
+        from . import driver_sched
+        sim = driver_sched.gen_traces(64 if tier == "quick" else 1600, common.seed() + 101, policies=["overbook", "priority", "naive"],
+                                      flavours=(("branchy", 0.5), ("wide", 0.25), ("mixed", 0.25)))
+        for tr in sim:
+            for e in tr:
+                e["tid"] += 2 * 10**7
+        traces += sim
     if prop == "C04":
         # whole simulations: random VALID configurations with the real generator (tick rates up to 100000, where a container's memory moves
         # by 0.2 MB a tick; sub-GB pools; every policy) observed sparsely, and scripted contention under the priority policy with and
